@@ -108,6 +108,13 @@ func runC19(c *Ctx) {
 		cryptochk.RunKeybase(sim.NewRand(seed), kbOps, lazy, rep)
 		c.Res.Cases++
 		c.Nontrivial(fmt.Sprintf("kb-%d", seed))
+		// armor round trips of keys of every type and shape (a handful per keybase program: each costs three scrypt runs)
+		for j := 0; j < 6; j++ {
+			aseed := r.U64()
+			arep := &caseReporter{c: c, caseID: fmt.Sprintf("armor-%d-%d", i, j), replay: map[string]interface{}{"kind": "armor", "seed": aseed}}
+			cryptochk.CheckArmor(sim.NewRand(aseed), arep)
+			c.Res.Cases++
+		}
 		if i == 0 {
 			c.Sample(map[string]interface{}{"kind": "keybase program", "subseed": seed, "ops": kbOps, "lazy_goleveldb": lazy})
 		}
@@ -125,6 +132,8 @@ func replayC19(c *Ctx, raw json.RawMessage) {
 	rep := &caseReporter{c: c, caseID: "replay", replay: raw}
 	if x.Kind == "keybase" {
 		cryptochk.RunKeybase(sim.NewRand(x.Seed), x.Ops, x.Lazy, rep)
+	} else if x.Kind == "armor" {
+		cryptochk.CheckArmor(sim.NewRand(x.Seed), rep)
 	} else {
 		cryptochk.CheckSignatures(sim.NewRand(x.Seed), rep)
 	}
@@ -198,6 +207,7 @@ func runC20Case(cdc *codec.Codec, kind string, g *codecchk.Gen, rep *caseReporte
 	case "numbers":
 		codecchk.HostileNumbers(cdc, g, rep)
 		codecchk.SortJSON(g, rep)
+		codecchk.HostileJSON(cdc, g, rep)
 	}
 }
 
